@@ -1,4 +1,6 @@
 import WhatIs.Base.Bytes
+import WhatIs.Base.Civil
+import WhatIs.Gen.PgpFacts
 import WhatIs.Base.Res
 /-
   Model/Pgp.lean — mirror of the vendored OpenPGP code that decides C11 / C12:
@@ -235,5 +237,19 @@ def readEntity (v : Verify) (primaryKeyId : Nat) (ps : List Pkt) : Option Entity
   let st := ps.foldl (step v primaryKeyId) ⟨⟨[], []⟩, .idle, false⟩
   let st := if st.mode = .stopped then st else leave st
   if st.failed ∨ st.e.ids.isEmpty then none else some st.e
+
+-- dates ---------------------------------------------------------------------------------------------
+/-- `gpgSignatureAttributes`: "Created" is the UTC date of the signature, "Expires" the UTC date of key creation plus
+    the key lifetime — or `never` when the subpacket is absent or (RFC 4880 5.2.3.6; regenerated fact
+    `Gen.pgpLifetimeZeroIsNever`) zero.  Times are seconds since 1970 (32-bit in the packets). -/
+def createdText (sigCreated : Nat) : Bytes := Civil.fmtDate ((sigCreated : Int) / 86400)
+
+def expiresTextB (zeroIsNever : Bool) (keyCreated : Nat) (lifetime : Option Nat) : Bytes :=
+  match lifetime with
+  | none => strBytes "never"
+  | some l => if zeroIsNever ∧ l = 0 then strBytes "never" else Civil.fmtDate (((keyCreated + l : Nat) : Int) / 86400)
+
+def expiresText (keyCreated : Nat) (lifetime : Option Nat) : Bytes :=
+  expiresTextB Gen.pgpLifetimeZeroIsNever keyCreated lifetime
 
 end WhatIs.Pgp
